@@ -350,9 +350,12 @@ impl BreakerBase {
 
 impl Drop for BreakerBase {
     fn drop(&mut self) {
+        // read the state first: every transition takes the state lock and then
+        // the listener list, so the state lock must not be taken under the list lock
+        let state = self.current_state();
         let listeners = state_change_listeners().lock().unwrap();
         for listener in &*listeners {
-            listener.on_circuit_breaker_drop(self.current_state(), Arc::clone(&self.rule));
+            listener.on_circuit_breaker_drop(state, Arc::clone(&self.rule));
         }
     }
 }
